@@ -652,7 +652,7 @@ func genSHistory(r *core.Rand, tier string) core.Case {
 				fill(3)
 			}
 			for i, m := 0, r.Range(1, 3); i < m; i++ {
-				lines = append(lines, sLoopLine(r, &ids, &det, &next))
+				lines = append(lines, sLoopLine(r, &ids, &det, &next, &other))
 			}
 			add("back")
 		case 0: // fill – drain – refill: head/tail/len after each phase
@@ -765,7 +765,41 @@ func dLoopLine(r *core.Rand, g *dSim, k int) string {
 				break
 			}
 			tok := ""
-			switch r.Pick(6, 2, 3, 3, 3, 3, 2, 2, 1) {
+			pick := r.Pick(6, 2, 3, 3, 3, 3, 2, 2, 1, 3)
+			switch pick {
+			case 9: // a call on the OTHER list while this one is being ranged over
+				o := 1 - k
+				M := names[o]
+				e := 2
+				if m := len(g.l[o]); m > 0 {
+					e = g.l[o][r.Intn(m)]
+				}
+				if e >= start {
+					e = 2
+				}
+				switch r.Intn(4) {
+				case 0:
+					tok = fmt.Sprintf("rm:%s:%d", M, e)
+					if idxOf(g.l[o], e) >= 0 {
+						g.l[o] = del(g.l[o], e)
+						g.det = append(g.det, e)
+					}
+				case 1:
+					tok = fmt.Sprintf("mtb:%s:%d", M, e)
+					if idxOf(g.l[o], e) >= 0 {
+						g.l[o] = append(del(g.l[o], e), e)
+					}
+				case 2:
+					tok = fmt.Sprintf("pb:%s:%d", M, r.Range(0, 9))
+					g.l[o] = append(g.l[o], g.next)
+					g.next++
+				default:
+					tok = fmt.Sprintf("ib:%s:%d:%d", M, r.Range(0, 9), e)
+					if j := idxOf(g.l[o], e); j >= 0 {
+						g.l[o] = insAt(g.l[o], j, g.next)
+						g.next++
+					}
+				}
 			case 0:
 				e := rel()
 				tok = fmt.Sprintf("rm:%s:%d", L, e)
@@ -836,7 +870,7 @@ func dLoopLine(r *core.Rand, g *dSim, k int) string {
 }
 
 // sLoopLine: the same for an SList (body acts by index, relative to the cursor's index).
-func sLoopLine(r *core.Rand, ids, det *[]int, next *int) string {
+func sLoopLine(r *core.Rand, ids, det *[]int, next *int, other *[]int) string {
 	line := "allbody"
 	if r.Chance(40) {
 		line = "walkbody"
@@ -865,7 +899,48 @@ func sLoopLine(r *core.Rand, ids, det *[]int, next *int) string {
 				return []int{ci, ci + 1, ci + 1, ci + 2, ci - 1, 0, n - 1, n, -1}[r.Intn(9)]
 			}
 			tok := ""
-			switch r.Pick(6, 2, 4, 2, 2, 2, 1) {
+			pick := r.Pick(6, 2, 4, 2, 2, 2, 1, 4)
+			if other == nil && pick == 7 {
+				pick = 0
+			}
+			switch pick {
+			case 7: // a call on the OTHER list of the family; also: move the current node over there
+				m := len(*other)
+				switch r.Intn(5) {
+				case 0:
+					tok = fmt.Sprintf("o.pb:%d", r.Range(0, 9))
+					*other = append(*other, *next)
+					*next++
+				case 1:
+					tok = "o.rmf"
+					if m > 0 {
+						*det = append(*det, (*other)[0])
+						*other = (*other)[1:]
+					}
+				case 2:
+					j := []int{0, m - 1, m, -1}[r.Intn(4)]
+					tok = fmt.Sprintf("o.rm:%d", j)
+					if j >= 0 && j < m {
+						*det = append(*det, (*other)[j])
+						*other = del(*other, (*other)[j])
+					}
+				case 3:
+					tok = fmt.Sprintf("o.swap:%d:%d", r.Range(-1, m), r.Range(0, m))
+				default: // unlink the current node here and link it into the other list
+					if cur >= start || ci < 0 {
+						tok = "o.len"
+						break
+					}
+					line += fmt.Sprintf(" %d:rm:%d", i, ci)
+					*ids = del(*ids, cur)
+					if r.Bool() {
+						tok = fmt.Sprintf("o.pbn:%d", cur)
+						*other = append(*other, cur)
+					} else {
+						tok = fmt.Sprintf("o.pfn:%d", cur)
+						*other = insAt(*other, 0, cur)
+					}
+				}
 			case 0:
 				j := rel()
 				tok = fmt.Sprintf("rm:%d", j)
@@ -930,10 +1005,13 @@ func sLoopLine(r *core.Rand, ids, det *[]int, next *int) string {
 			}
 		}
 		ci := idxOf(*ids, cur)
-		if ci < 0 || ci+1 >= len(*ids) {
-			cur = -1
-		} else {
+		switch {
+		case ci >= 0 && ci+1 < len(*ids):
 			cur = (*ids)[ci+1]
+		case ci < 0 && other != nil && idxOf(*other, cur) >= 0 && idxOf(*other, cur)+1 < len(*other):
+			cur = (*other)[idxOf(*other, cur)+1] // the loop goes on in the list the node was moved to
+		default:
+			cur = -1
 		}
 	}
 	return line
